@@ -38,7 +38,7 @@ class Rec:
     def brief(self):
         vals = []
         for k, v in self.f.items():
-            if k in ('snap',):
+            if k in ('snap', 'snap_all', 'hist'):
                 continue
             vals.append(f'{k}={v}')
         return f'{self.kind}(' + ','.join(vals) + ')'
@@ -81,7 +81,7 @@ class Inv:
         except BaseException as ex:
             ctx.rec('AE', by=self.id, ev=lab, outcome='raise:' + type(ex).__name__)
             raise
-        ctx.rec('AE', by=self.id, ev=lab, outcome='return', same=(r is ev), snap=ctx.snap(ev))
+        ctx.rec('AE', by=self.id, ev=lab, outcome='return', same=(r is ev), snap=ctx.snap(ev), snap_all=ctx.snap_all())
         return r
 
 
@@ -269,6 +269,17 @@ class Ctx:
                         path=list(ev.event_path), parent=ev.event_parent_id)
         except Exception as ex:  # pragma: no cover
             return dict(error=repr(ex))
+
+    def snap_all(self):
+        out = {}
+        for lab, e in self.events.items():
+            try:
+                sig = e.event_completed_signal
+                out[lab] = (e.event_status, bool(sig.is_set()) if sig is not None else None,
+                            tuple((r.handler_name.rsplit('.', 1)[-1], r.eventbus_name, r.status) for r in e.event_results.values()))
+            except Exception as ex:  # pragma: no cover
+                out[lab] = ('error', repr(ex), ())
+        return out
 
     def obs(self, name, ev=None, bus=None, **extra):
         f = dict(name=name, **extra)
